@@ -471,6 +471,39 @@ def run_case(case, Violation):
             run["exc"] = type(e).__name__
             emu = None
 
+        # ---------- configuration history on this one emulator
+        run["history"] = []
+        if emu is not None and case.get("history"):
+            from pulser_simulation import SimConfig
+
+            np.random.seed(int(case.get("np_seed", 0)) % (2**32))
+            for how, kw in case["history"]:
+                try:
+                    if how == "reset":
+                        emu.reset_config()
+                    else:
+                        kw2 = dict(kw)
+                        kw2["noise"] = tuple(kw2.get("noise", ()))
+                        cfg = SimConfig(**kw2)
+                        (emu.set_config if how == "set" else emu.add_config)(cfg)
+                    run["history"].append("ok")
+                except NotImplementedError:
+                    run["history"].append("unsupported")
+                except Exception as e:  # noqa: BLE001
+                    run["history"].append(type(e).__name__)
+                    bad("config-history:" + type(e).__name__,
+                        f"{how}_config({kw}) raised {e!r} on a valid emulator")
+            nm = emu._hamiltonian.config
+            clean = set(nm.noise_types) <= {"SPAM", "dephasing"} and not (
+                "SPAM" in nm.noise_types and nm.state_prep_error > 0)
+            if not clean:
+                # the last (clean) step was refused: nothing can be said
+                run["status"] = "history-not-clean"
+                for op in case["ops"]:
+                    op.pop("_skipped", None)
+                run["chans"] = []
+                return run, viols
+
         # ---------- inputs of the Coq model (sampler outputs)
         chans = []
         for name, cs in samp.channel_samples.items():
@@ -562,6 +595,13 @@ def run_case(case, Violation):
                     bad("not-hermitian", f"H(t={t}) is not Hermitian")
                 Hdoc = doc_hamiltonian(case, prog, states, ids, coords, t, c6, c3, mag,
                                        o_mask, o_mask_end, weights)
+                if case.get("history"):
+                    # the noiseless view of the same emulator must agree as well
+                    Hnl = np.asarray(emu.get_hamiltonian(t, noiseless=True).full(), dtype=complex)
+                    if Hnl.shape != Himp.shape or np.max(np.abs(Hnl - Himp)) > tol:
+                        bad("config-history:differs-from-noiseless-hamiltonian",
+                            f"after {case['history']} H(t={t}) differs from get_hamiltonian(noiseless=True) "
+                            "although no atom is badly prepared and no noise is drawn", dict(t=t))
                 if np.max(np.abs(Himp - Hdoc)) <= tol:
                     continue
                 # classify
